@@ -167,6 +167,25 @@ func (s *stubServer) serve(st *stubStream) {
 		st.resps = append(st.resps, r)
 		s.nEmit++
 	}
+	// Answers to session parameters and election announcements may be overtaken by operation results (never by
+	// one another): a held-back answer waits in ctrl and everything of its kind queues up behind it.
+	var ctrl []*spb.ModifyResponse
+	emitCtrl := func(r *spb.ModifyResponse) {
+		if len(ctrl) > 0 || sim.Choose("flt", 4) == 1 {
+			ctrl = append(ctrl, r)
+			return
+		}
+		emit(r)
+	}
+	releaseCtrl := func() {
+		for _, r := range ctrl {
+			if s.nEmit > 0 && len(pool) > 0 {
+				sim.Probe("client: parameters / election answer overtaken by operation results")
+			}
+			emit(r)
+		}
+		ctrl = nil
+	}
 	flushSome := func(all bool) {
 		for {
 			var ready []*pendingResult
@@ -176,10 +195,16 @@ func (s *stubServer) serve(st *stubStream) {
 				}
 			}
 			if len(ready) == 0 {
+				if all {
+					releaseCtrl()
+				}
 				return
 			}
 			if !all && sim.Choose("flt", 3) == 1 {
 				return // hold results back for now
+			}
+			if len(ctrl) > 0 && sim.Choose("flt", 2) == 1 {
+				releaseCtrl()
 			}
 			n := 1
 			if s.maxBatch > 1 {
@@ -227,13 +252,13 @@ func (s *stubServer) serve(st *stubStream) {
 		st.reqs = st.reqs[1:]
 		switch {
 		case m.Params != nil:
-			emit(&spb.ModifyResponse{SessionParamsResult: &spb.SessionParametersResult{Status: spb.SessionParametersResult_OK}})
+			emitCtrl(&spb.ModifyResponse{SessionParamsResult: &spb.SessionParametersResult{Status: spb.SessionParametersResult_OK}})
 		case m.ElectionId != nil:
 			// an election response may overtake results that are still held back; it carries the highest id seen
 			if id := [2]uint64{m.ElectionId.High, m.ElectionId.Low}; !less128(id, s.maxElec) {
 				s.maxElec = id
 			}
-			emit(&spb.ModifyResponse{ElectionId: uint128(s.maxElec)})
+			emitCtrl(&spb.ModifyResponse{ElectionId: uint128(s.maxElec)})
 			if len(pool) > 0 {
 				sim.Probe("client: election response interleaved with outstanding results")
 			}
